@@ -388,7 +388,7 @@ def jsonable(c):
 def run(chk):
     common.quiet_trackpy()
     chk.coq()
-    n = 600 if chk.tier == "quick" else 4000
+    n = 600 if chk.tier == "quick" else 5000
     calls = corpus() + [gen_call(chk.rng, chk.tier) for _ in range(n)]
     evaluate(chk, calls)
     for c in calls[:2] + calls[-2:]:
